@@ -58,10 +58,12 @@ CHECKS["C12"] = dict(
     technique="fault injection: forced-include allocation shim fails the k-th "
               "libvna allocation of scripted histories, every k; differential "
               "comparison with the fault-free run; ASan/UBSan/LSan",
-    text="For nine scripted histories (parameters, properties, vnadata incl. "
-         "save/load in three file types, five calibration flows) every "
-         "allocation index made from libvna source text is failed once "
-         "(thorough: all; quick: all of two scripts, every 7th of the rest). "
+    text="For twelve scripted histories (parameters, properties, vnadata "
+         "incl. save/load in three file types, alias and mode-switch flows, "
+         "seven calibration flows) and for generated API histories (quick 8, "
+         "thorough 96) every allocation index made from libvna source text "
+         "is failed once (thorough: all, about 80 000 runs; quick: all of "
+         "three scripts, every 7th / 5th of the rest). "
          "The faulted call must succeed or fail with ENOMEM, nothing may "
          "crash or leak, and after one retry all later events, dumps and "
          "saved bytes equal the fault-free run.",
